@@ -6,10 +6,11 @@ import (
 	"github.com/google/martian/v3"
 	"github.com/google/martian/v3/zzverif/msg"
 	"github.com/google/martian/v3/zzverif/vf"
+	"strings"
 )
 
 var c15enc = []string{"", "gzip", "deflate", "br"}
-var c15ct = []string{"", "text/plain", "application/x-www-form-urlencoded", "image/png"}
+var c15ct = []string{"", "text/plain", "application/x-www-form-urlencoded", "image/png", "multipart/form-data; boundary=b"}
 
 // VerifC15HAR: attaching the HAR logger leaves request and response as they
 // were (for every capture option), and an exchange marked skip-logging is not recorded.
@@ -20,7 +21,14 @@ func VerifC15HAR() {
 	ct := c15ct[vf.Choice("content-type", len(c15ct))]
 	trailers := framing == msg.FrameChunked && vf.Choice("trailers", 2) == 1
 	wire := plain
-	if enc == "gzip" || enc == "deflate" {
+	if strings.HasPrefix(ct, "multipart/") {
+		// one form field whose value is the symbolic body (kept clear of the delimiter alphabet)
+		for _, c := range plain {
+			vf.Assume((c >= 'a' && c <= 'z') || (c >= '0' && c <= '9'))
+		}
+		wire = []byte("--b\r\nContent-Disposition: form-data; name=\"f\"\r\n\r\n" + string(plain) + "\r\n--b--\r\n")
+		enc = ""
+	} else if enc == "gzip" || enc == "deflate" {
 		wire = vf.Enc(enc, plain)
 	}
 	spec := msg.Spec{Framing: framing, Wire: wire, Trailers: trailers, Encoding: enc, ContentType: ct}
